@@ -6,6 +6,7 @@ cd "$(dirname "$0")/.."
 run() { p=$1; shift; for id in "$@"; do echo "$p $(SELFTEST_BUILD=1 selftest/run.sh selftest/mustpass/$p.patch $id 2>&1 | tail -1 | cut -c1-220)"; done; }
 run P01-rename-bcd C12 C05
 run P02-errmsg C07 C01
+run P12-rename-function-under-contract C07 C01
 run P03-debug-sendto C01 C03 C06
 run P04-reorder-putcard C07 C01
 run P05-bcd-if C12
